@@ -504,6 +504,33 @@ let run_frp_guided oc (name, lines) =
       end) lines;
   Printf.fprintf oc "---\n"
 
+(* ---------- C20: thread schedules on one context, run on the model ---------- *)
+let run_thr_script oc (name, lines) =
+  Printf.fprintf oc "# %s\n" name;
+  (match lines with
+   | first :: rest when split_ws first = ["interleaving"] ->
+     let sched = List.map (fun l ->
+         match split_ws l with
+         | [t; "{"] -> (t = "B", TBegin)
+         | [t; "}"] -> (t = "B", TEnd)
+         | [t; "send"; v] -> (t = "B", TSend (zz v))
+         | _ -> failwith ("bad thr step " ^ l)) rest in
+     (match run_schedule sched with
+      | Some os -> List.iter (fun o -> Printf.fprintf oc "%s\n" (canon o)) os
+      | None -> Printf.fprintf oc "model-error\n")
+   | first :: _ ->
+     (match split_ws first with
+      | ["stress"; n; m; _] ->
+        (* the property: every send delivered exactly once, nothing lost, no panic *)
+        let n = int_of_string n and m = int_of_string m in
+        let expected = ref 0 in
+        for i = 0 to n - 1 do for k = 0 to m - 1 do expected := !expected + i * 1000 + k done done;
+        Printf.fprintf oc "sent=%d delivered=[%s] total=%d expected=%d panics=0\n" (n * m)
+          (String.concat ", " (List.init n (fun _ -> string_of_int m))) !expected !expected
+      | _ -> Printf.fprintf oc "model-error\n")
+   | [] -> ());
+  Printf.fprintf oc "---\n"
+
 (* seeded random valid gc scripts (all choices from one PRNG state) *)
 let gc_rand seed count maxlen nmax emax hmax =
   Random.init seed;
@@ -589,6 +616,8 @@ let () =
     List.iter (run_eng_script false stdout) (read_scripts stdin)
   | _ :: "eng-run-orig" :: _ ->
     List.iter (run_eng_script true stdout) (read_scripts stdin)
+  | _ :: "thr-run" :: _ ->
+    List.iter (run_thr_script stdout) (read_scripts stdin)
   | _ :: "frp-check" :: _ ->
     List.iter (run_frp_guided stdout) (read_scripts stdin)
   | _ :: "frp-run" :: _ ->
